@@ -232,3 +232,39 @@ def run_classify(imports, defs, case_type, cases, checker, shard=200):
         return sorted(fails), sorted(und)
     finally:
         shutil.rmtree(d, ignore_errors=True)
+
+
+def trees_equal(a, b) -> bool:
+    """Iterative structural equality of two optyx scalar trees (no recursion: trees may be deep)."""
+    from optyx.core.expressions import Constant, Variable, BinaryOp, UnaryOp
+    from optyx.core.parameters import Parameter
+    stack = [(a, b)]
+    while stack:
+        p, q = stack.pop()
+        if p is q:
+            continue
+        if type(p) is not type(q):
+            return False
+        if isinstance(p, Constant):
+            if not np.array_equal(np.asarray(p.value), np.asarray(q.value)):
+                return False
+        elif isinstance(p, (Variable, Parameter)):
+            if p.name != q.name:
+                return False
+        elif isinstance(p, BinaryOp):
+            if p.op != q.op:
+                return False
+            stack.append((p.left, q.left))
+            stack.append((p.right, q.right))
+        elif isinstance(p, UnaryOp):
+            if p.op != q.op:
+                return False
+            stack.append((p.operand, q.operand))
+        else:
+            s1, s2 = ser.Ser(), ser.Ser()
+            try:
+                if s1.expr(p) != s2.expr(q):
+                    return False
+            except ser.Unsupported:
+                return False
+    return True
